@@ -1,7 +1,7 @@
 //! `real sig`: every ordered pair of the generated family of function types through the type-checked
 //! installation calls (func! both forms, closure!, fake!), the unchecked macros, null pointers, the
 //! boolean gate and the async gate.  One line per row; A = accepted, S = signature-mismatch panic,
-//! N = null-pointer panic, B = boolean-gate panic, O = other panic, M = refused but target bytes modified.
+//! N = null-pointer panic, B = boolean-gate panic, O = other panic, M = refused, but the target's bytes were modified or the installation had already begun (it made system calls: mapped a trampoline, changed a page's protection, flushed).
 use crate::{sigfam::FAMILY, util};
 use injectorpp::interface::injector::*;
 use std::panic::{catch_unwind, AssertUnwindSafe};
@@ -22,6 +22,8 @@ fn attempt<F: FnOnce(&mut InjectorPP)>(taddr: u64, f: F) -> char {
     let before = util::read16(taddr);
     let mut during = before;
     let mut r: std::thread::Result<()> = Ok(());
+    crate::interpose::reset();
+    crate::interpose::RECORD.store(true, Ordering::SeqCst);
     in_context(|| { r = catch_unwind(AssertUnwindSafe(|| {
         let mut inj = InjectorPP::new();
         let rr = catch_unwind(AssertUnwindSafe(|| f(&mut inj)));
@@ -30,10 +32,12 @@ fn attempt<F: FnOnce(&mut InjectorPP)>(taddr: u64, f: F) -> char {
         if let Err(e) = rr { std::panic::resume_unwind(e) }
     })); });
     let after = util::read16(taddr);
+    crate::interpose::RECORD.store(false, Ordering::SeqCst);
+    let syscalls = crate::interpose::len();        // executable mmap / mprotect / munmap of a trampoline / __clear_cache made on the library's behalf
     match r {
         Ok(()) => if after == before { 'A' } else { 'R' },            // R = accepted but not restored
         Err(e) => {
-            if during != before || after != before { return 'M'; }
+            if during != before || after != before || syscalls != 0 { return 'M'; }      // a refusal must come before ANYTHING is done: no byte changed, no mapping made, no page protection touched
             match util::classify(&util::panic_msg(&e)) { "sig" => 'S', "null" => 'N', "boolgate" => 'B', _ => 'O' }
         }
     }
